@@ -465,6 +465,11 @@ KEYWORDS = ["minimum", "maximum", "exclusiveMinimum", "exclusiveMaximum", "multi
             "enum", "const", "required", "additionalProperties"]
 
 
+def _num(v):
+    """2.0 and 2 are the same JSON number: written the same way before texts are compared"""
+    return int(v) if isinstance(v, float) and v.is_integer() else v
+
+
 def norm_reported(schema):
     """Flatten pydantic's reported JSON Schema to {pointer: {keyword: value}} for the keywords of C04, following $ref,
     unwrapping anyOf [X, null]."""
@@ -488,7 +493,7 @@ def norm_reported(schema):
         s = deref(s)
         if not isinstance(s, dict) or depth > 4:
             return
-        kws = {k: s[k] for k in KEYWORDS if k in s and not (k == "additionalProperties" and s[k] is not False)}
+        kws = {k: _num(s[k]) for k in KEYWORDS if k in s and not (k == "additionalProperties" and s[k] is not False)}
         if "required" in kws:
             kws["required"] = sorted(kws["required"])
         if "enum" in kws:
@@ -561,7 +566,7 @@ def norm_input(doc):
             s["exclusiveMaximum"] = s.pop("maximum")
         elif s.get("exclusiveMaximum") is False:
             s.pop("exclusiveMaximum")
-        kws = {k: s[k] for k in KEYWORDS if k in s and not (k == "additionalProperties" and s[k] is not False)}
+        kws = {k: _num(s[k]) for k in KEYWORDS if k in s and not (k == "additionalProperties" and s[k] is not False)}
         if "required" in kws:
             kws["required"] = sorted(kws["required"])
         if "enum" in kws:
